@@ -301,9 +301,6 @@ func kindIndex(k *tkind) int {
 // namedStringOK runs (once per construction) the named string map route and
 // reports whether it returned without a panic.
 func (ru *runner) namedStringOK(cons int) bool {
-	if true {
-		return true // TEMP experiment
-	}
 	if ru.canary[cons] == 0 {
 		ru.canary[cons] = 1
 		if ru.unpack(cons, stringKind, namedString, rMap) {
